@@ -50,6 +50,8 @@ Definition val_ok (f : tfield) (v : tval) : Prop :=
   | FNameNoRel, VName n => Valid n /\ AllBytes n
   | FB64RestOpt, VBytes b => all_bytes b = true /\ zlen b <= 65535
   | FB64RestE, VBytes b => all_bytes b = true
+  | FMac, VBytes b => all_bytes b = true /\ b <> [] /\ zlen b <= 65535
+  | FOther, VBytes b => all_bytes b = true /\ zlen b <= 65535
   | FGw ipsec, VGw g a gw =>
       0 <= a <= 255 /\ (ipsec = false -> a = 0) /\
       match gw with
@@ -201,7 +203,7 @@ Lemma field_ok sty c f v ftext v' R q bl :
         (is_rest f = true -> (exists te, ungot st_end = Some te /\ is_eol_or_eof te = true) \/ exists q', st_end = stq q' R).
 Proof.
   intros (Hhs & Hbs & HO) Hv Hp He Hbl HR1 HR2.
-  destruct f as [maxv| |tokmax ctormax ne| | |sc| |v6| | | | | |k| |maxc| |en| | | | |bmax| | | |ipsec|]; destruct v as [z|b|n|l|ws|nl|g a gw]; cbn [val_ok] in Hv; try contradiction;
+  destruct f as [maxv| |tokmax ctormax ne| | |sc| |v6| | | | | |k| |maxc| |en| | | | |bmax| | | |ipsec| | |]; destruct v as [z|b|n|l|ws|nl|g a gw]; cbn [val_ok] in Hv; try contradiction;
     cbn [print_field] in Hp; cbn [expect] in He; cbn [is_rest] in HR1, HR2.
   - (* FDec *)
     inversion Hp; subst ftext. inversion He; subst v'. specialize (HR1 eq_refl).
@@ -781,6 +783,58 @@ Proof.
       exists t1, s1. split; [exact G1|]. split; [exact G2|]. split; [exact G3|]. split; [exact G4|]. intros stX HX HL.
       destruct (G5 stX HX HL true) as (se & te & P1 & P2 & P3).
       exists (VBytes s), se. split; [exact P1|]. split; [reflexivity|]. split; [discriminate|]. intros _. left. exists te. split; assumption.
+  - (* FMac *)
+    destruct Hv as (Hb & Hne & Hl). inversion Hp; subst ftext. inversion He; subst v'. specialize (HR1 eq_refl). clear Hp.
+    assert (Hn : 0 <= zlen b <= 65535) by (unfold zlen in *; lia).
+    destruct (b64encode_safe b Hb) as [Hs Ha].
+    assert (Hn0 : b64encode b <> []) by (destruct b as [|x [|y [|z b']]]; [congruence|discriminate|discriminate|discriminate]).
+    pose proof (dec_safe (zlen b) ltac:(lia)) as Hsn.
+    assert (Etext : bl ++ (dec (zlen b) ++ 32 :: b64encode b) ++ R = bl ++ dec (zlen b) ++ ([32] ++ b64encode b ++ R))
+      by (rewrite <- !app_assoc; reflexivity).
+    rewrite Etext.
+    exists (mkTok tIDENT (dec (zlen b)) (has_bs (dec (zlen b))) None), (stq false ([32] ++ b64encode b ++ R)).
+    split; [apply get0_word_q; auto using units_safe, dec_nonempty; apply word_end_blank32|].
+    split; [reflexivity|]. split.
+    { unfold tok_plain, is_identifier. cbn [ttype tvalue]. rewrite safe_word_not_hash by exact Hsn. repeat split; reflexivity. }
+    split; [apply stq_len_word|].
+    intros stX HX _. exists (VBytes b), (stq false R).
+    split; [|split; [reflexivity|split; [intros _; exists false; reflexivity|discriminate]]].
+    cbn [parse_field]. rewrite (get_uint_from (zlen b) max16 stX _ ltac:(unfold max16; lia) HX). cbn [bind fst snd].
+    rewrite (get_string_word false [32] (b64encode b) R eq_refl Hs Hn0 HR1). cbn [bind fst snd].
+    unfold b64decode_str. change (forallb (fun c => (0 <=? c) && (c <? 128)) (b64encode b)) with (all_ascii (b64encode b)).
+    rewrite Ha. rewrite b64decode_b64encode by exact Hb. cbn [bind]. rewrite Z.eqb_refl. reflexivity.
+  - (* FOther *)
+    destruct Hv as (Hb & Hl). inversion Hp; subst ftext. inversion He; subst v'. specialize (HR1 eq_refl). clear Hp.
+    assert (Hn : 0 <= zlen b <= 65535) by (unfold zlen in *; lia).
+    pose proof (dec_safe (zlen b) ltac:(lia)) as Hsn.
+    destruct b as [|x b'].
+    + cbn [is_nil]. rewrite app_nil_r.
+      exists (mkTok tIDENT (dec (zlen (@nil Z))) (has_bs (dec (zlen (@nil Z)))) None), (stq false R).
+      split; [apply get0_word_q; auto using units_safe, dec_nonempty|]. split; [reflexivity|]. split.
+      { unfold tok_plain, is_identifier. cbn [ttype tvalue]. rewrite safe_word_not_hash by exact Hsn. repeat split; reflexivity. }
+      split; [apply stq_len_word|].
+      intros stX HX _. exists (VBytes []), (stq false R).
+      split; [|split; [reflexivity|split; [intros _; exists false; reflexivity|discriminate]]].
+      cbn [parse_field]. rewrite (get_uint_from (zlen (@nil Z)) max16 stX _ ltac:(unfold max16, zlen; cbn; lia) HX). cbn [bind fst snd].
+      change (zlen (@nil Z) >? 0) with false. reflexivity.
+    + change (is_nil (x :: b')) with false. cbv iota. set (s := x :: b') in *.
+      destruct (b64encode_safe s Hb) as [Hs Ha].
+      assert (Hn0 : b64encode s <> []) by (unfold s; destruct b' as [|y [|z b'']]; discriminate).
+      assert (Etext : bl ++ (dec (zlen s) ++ 32 :: b64encode s) ++ R = bl ++ dec (zlen s) ++ ([32] ++ b64encode s ++ R))
+        by (rewrite <- !app_assoc; reflexivity).
+      rewrite Etext.
+      exists (mkTok tIDENT (dec (zlen s)) (has_bs (dec (zlen s))) None), (stq false ([32] ++ b64encode s ++ R)).
+      split; [apply get0_word_q; auto using units_safe, dec_nonempty; apply word_end_blank32|].
+      split; [reflexivity|]. split.
+      { unfold tok_plain, is_identifier. cbn [ttype tvalue]. rewrite safe_word_not_hash by exact Hsn. repeat split; reflexivity. }
+      split; [apply stq_len_word|].
+      intros stX HX _. exists (VBytes s), (stq false R).
+      split; [|split; [reflexivity|split; [intros _; exists false; reflexivity|discriminate]]].
+      cbn [parse_field]. rewrite (get_uint_from (zlen s) max16 stX _ ltac:(unfold max16; lia) HX). cbn [bind fst snd].
+      replace (zlen s >? 0) with true by (symmetry; apply Z.gtb_lt; unfold s, zlen; cbn [length]; lia).
+      rewrite (get_string_word false [32] (b64encode s) R eq_refl Hs Hn0 HR1). cbn [bind fst snd].
+      unfold b64decode_str. change (forallb (fun c => (0 <=? c) && (c <? 128)) (b64encode s)) with (all_ascii (b64encode s)).
+      rewrite Ha. rewrite b64decode_b64encode by exact Hb. cbn [bind]. rewrite Z.eqb_refl. reflexivity.
 Qed.
 
 (* ---------- the whole field list ---------- *)
